@@ -539,8 +539,13 @@ def alpha(res, dt, ac, conc, pa=None, pconc=None):
         a = big_abs(res, SCALES[dt['sid']], 'bgnum' if isinstance(res, float) else 'gint')
         if a is None:
             return {'j': 'off-grid'}
-        if abs(a['d']) == FAR and not _same_number(res, conc):
-            return ALTERED
+        if abs(a['d']) == FAR:       # a class only stands for the very grid point offered (index and value differ by the scale)
+            sc = Fraction(SCALES[dt['sid']])
+            if isinstance(conc, bool) or not isinstance(conc, (int, float)) or (isinstance(conc, float) and not math.isfinite(conc)):
+                return ALTERED
+            idx = lambda x: Fraction(x) / sc if isinstance(x, float) else Fraction(x)    # noqa
+            if idx(res) != idx(conc):
+                return ALTERED
         return a
     if isinstance(res, int):
         if dt is not None and dt['k'] == 'bigint':
@@ -1101,7 +1106,8 @@ def rand_valid(rnd, dt, obj):
         lo, hi = gpos_int(dt['min']['a'], dt['min']['d']), gpos_int(dt['max']['a'], dt['max']['d'])
         inside = [n for n in (2 ** 53 - 1, 2 ** 53 - 3, 2 ** 52 + 1, 2 ** 52 + 3, 3 * 2 ** 51 + 5, -(2 ** 53) + 1, -(2 ** 52) - 1, 1, 0)
                   if lo <= n <= hi]
-        return rnd.choice([lo, hi, max(lo, hi - rnd.randint(0, 3))] + inside) * SCALES[dt['sid']]
+        # (+-2^53 itself is left to C01, see VS in Datatypes.tla)
+        return rnd.choice([n for n in [lo, hi, max(lo, hi - rnd.randint(0, 3))] + inside if abs(n) != 2 ** 53]) * SCALES[dt['sid']]
     if k == 'gscaled':
         return rnd.choice((dt['min'], dt['max'], rnd.randint(dt['min'], dt['max']))) * SCALES[dt['sid']]
     if k == 'bigint':
